@@ -33,6 +33,15 @@ var waitingCalls = map[string]bool{
 
 func isMapLock(cl LockClass) bool {
 	s := string(cl)
+	if ms, ok := paramMembers[cl]; ok {
+		// the mutex parameter of a helper both backends share: a map lock if every caller hands in its map lock
+		for _, m := range ms {
+			if !isMapLock(m) {
+				return false
+			}
+		}
+		return len(ms) > 0
+	}
 	return s == "F:reservoir/cache.MemoryCache.mu" || s == "F:reservoir/cache.FileCache.mu"
 }
 
